@@ -83,6 +83,11 @@ def answer (line : String) : String :=
       | .ok v => v.toWire
       | .error e => s!"exc {e.name}"
     | none => "bad-tree"
+  | "like" :: rest => withTree rest fun t _ => toString (hasLikeTerms t)
+  | "termkey" :: rest => withTree rest fun t _ =>
+      match getTermKey t with
+      | some k => s!"key {String.ofList k.vars}| {match k.exp with | some e => ratToWire e | none => "-"}"
+      | none => "false"
   | "eval" :: rest => withTree rest fun t env => (eval (envOfWire env) t).toWire
   | _ => "bad-op"
 
